@@ -20,6 +20,7 @@ import (
 	"time"
 
 	"github.com/tidwall/tile38/verifapi"
+	"verifharness/internal/hooklife"
 	"verifharness/internal/hx"
 	"verifharness/internal/model"
 	"verifharness/internal/srv"
@@ -39,6 +40,9 @@ func run(r *hx.Result, cfg hx.Config) {
 	inPackage(r, drv, rng, cfg)
 	timeFree(r, drv, rng, cfg)
 	timed(r, rng, cfg)
+	rolesR3(r, rng, cfg) // seeds_r3.go: expiry after every step of a role history (c14_sweeper_in_every_role)
+	// hooks and channels against the life-cycle model (coq/Model/HookLife.v, the c14_hook_* theorems)
+	hooklife.RunC14(r, cfg)
 }
 
 var ids = []string{"a", "b", "c", "d", "e", "\xff"}
